@@ -2,7 +2,7 @@
    Statements only; proofs are in Proofs/Refine.v, Proofs/RefineCor.v, Proofs/StackInv.v. *)
 From Coq Require Import List NArith.
 From PT Require Import Model.Base Model.Stack Model.Texpr Model.Sem Model.Aparse.
-From PT Require Import Proofs.StackInv Proofs.Refine Proofs.RefineCor.
+From PT Require Import Proofs.StackInv Proofs.Refine Proofs.RefineCor Proofs.BoundaryOps Proofs.Boundary Proofs.RefinePanic.
 Import ListNotations.
 
 (* Refinement. [aparse] is the interpreter in which a failed alternative / optional body / iteration /
@@ -19,6 +19,28 @@ Theorem C05_no_trace : forall E, fixed E -> forall fuel inh e pos st gs,
   rel gs (tparse E fuel inh e pos st) (aparse E fuel inh e pos (cache (stk st))).
 Proof. exact tparse_refines_aparse. Qed.
 Print Assumptions C05_no_trace.
+
+(* The premise about the reference run can be dropped for everything a Rust caller can build (valid UTF-8 input and
+   literals, cursor and stack spans on character boundaries: [env_ok], [lits_ok], [pre] of C09): there neither run panics. *)
+Theorem C05_no_trace_good : forall E, fixed E -> env_ok E -> forall fuel inh e pos st gs,
+  lits_ok e -> pre (e_inp E) pos st gs ->
+  rel gs (tparse E fuel inh e pos st) (aparse E fuel inh e pos (cache (stk st))).
+Proof. exact tparse_refines_aparse_good. Qed.
+Print Assumptions C05_no_trace_good.
+
+Theorem C05_entry_good : forall E fuel r, fixed E -> env_ok E ->
+  rel [] (try_parse_partial E fuel r) (aparse E fuel true (TRule r SkOn) (i_start (e_inp E)) []).
+Proof. exact try_parse_partial_refines'. Qed.
+Print Assumptions C05_entry_good.
+
+(* without those hypotheses the premise cannot be moved to the real path: the reference interpreter follows the parse
+   path everywhere and so trips debug assertions (cursor off a boundary) that the check path, used under `!` and in
+   span-only rules, does not *)
+Theorem C05_panic_premise_needed : exists E fuel inh e pos st gs,
+  fixed E /\ SInv (stk st) gs /\ tparse E fuel inh e pos st <> Panic /\
+  ~ rel gs (tparse E fuel inh e pos st) (aparse E fuel inh e pos (cache (stk st))).
+Proof. exact tparse_refines_aparse'_refuted. Qed.
+Print Assumptions C05_panic_premise_needed.
 
 (* every entry point starts from an empty stack, which satisfies the invariant *)
 Theorem C05_entry : forall E fuel r, fixed E ->
